@@ -2,6 +2,7 @@ package simkit
 
 import (
 	"fmt"
+	"runtime"
 	"sort"
 	"strings"
 	"sync"
@@ -106,4 +107,21 @@ func (s *Sched) Off() {
 	for _, g := range p {
 		close(g.ch)
 	}
+}
+
+// GoID returns the id of the calling goroutine (parsed from its stack header);
+// used to map a scheduling point reached inside the system to the simulated
+// task whose goroutine reached it.
+func GoID() uint64 {
+	var buf [40]byte
+	n := runtime.Stack(buf[:], false)
+	// "goroutine 123 ["
+	var id uint64
+	for _, ch := range buf[len("goroutine "):n] {
+		if ch < '0' || ch > '9' {
+			break
+		}
+		id = id*10 + uint64(ch-'0')
+	}
+	return id
 }
